@@ -20,10 +20,12 @@ Section C01.
     forall t, In t ns -> exists c', snd c' = snd c /\ walk c' t = Allow.
   Proof.
     intros H t Ht. destruct ns as [|n0 ns']; [destruct Ht|].
-    unfold Walker.analyze_nodes in H. rewrite (sequence_ctxs simple astr mredir cdres injrisk rulematch) in H.
+    unfold Walker.analyze_nodes in H.
+    rewrite (semis_pairs simple astr mredir cdres injrisk rulematch), (sequence_ctxs simple astr mredir cdres injrisk rulematch) in H.
     apply combine_allow in H. rewrite Forall_map, Forall_forall in H.
-    destruct (seq_ctxs_all cdres c (n0 :: ns') t Ht) as [c' Hc'].
-    exists c'. split; [exact (seq_ctxs_mode cdres c _ _ Hc')|exact (H (c', t) Hc')].
+    assert (Ht' : In t (map fst (semis_t (n0 :: ns')))) by (unfold semis_t; rewrite map_map, map_id; exact Ht).
+    destruct (seq_ctxs_all cdres (init_state c) _ t Ht') as [c' Hc'].
+    exists c'. split; [exact (seq_ctxs_mode cdres (init_state c) _ _ Hc')|exact (H (c', t) Hc')].
   Qed.
 
   (* whole-program statement: an approved program = parse succeeded, and every node reached from
